@@ -92,6 +92,11 @@ class C08(vlib.Check):
                 case["ext"] = rng.choice([".txt", ".txt.gz", ".txt.bz2"])
             if build == "from_array_unsorted":
                 case["perm_seed"] = rng.randrange(10 ** 6)
+            if build.startswith("from_array") and t == "rt" and rng.random() < 0.35:
+                # explicitly stored zeros (False in a bit matrix): legitimate CSR content - what a fold with cancelling weights, a
+                # threshold `X.data[X.data < t] = 0` or a cast leaves behind; a stored zero is not an "on" position after a reload either
+                case["zeros"] = rng.randrange(10 ** 6)
+                self.count("explicit-zeros")
             if t == "rt" and rng.random() < 0.35:
                 # columns given to the database itself with set_prop, under keys a save format might treat specially
                 case["setprops"] = [[key, [{"s": "%s%d" % (key[:1] or "v", j)} for j in range(nrows)]]
@@ -194,6 +199,11 @@ class C08(vlib.Check):
                 ent = [[i, "1"] for i in fp["idx"]]
             else:
                 ent = [[i, v] for i, v in fp["cnt"]]
+            if case.get("zeros") is not None:
+                rz = random.Random(case["zeros"] + len(out))
+                free = [c for c in range(min(case["bits"], 64)) if c not in {e[0] for e in ent}]
+                ent = ent + [[c, "0"] for c in rz.sample(free, min(len(free), rz.randint(1, 3)))]
+                ent.sort()
             if case["build"] == "from_array_unsorted":
                 r.shuffle(ent)
             out.append(ent)
